@@ -70,6 +70,9 @@ add("C04", "B", C, "self._residues.append(res.copy())", "self._residues.append(r
 add("C04", "P", E, "        if self._refmolecule != refmolecule:", "        if not self._refmolecule == refmolecule:", "!= written as not ==")
 add("C04", "P", E, "        new_mol.resids = refmolecule.resids\n        return new_mol", "        new_mol.resids = refmolecule.resids\n        self._last = new_mol\n        return new_mol", "write-only cache attribute")
 
+add("C04", "B", C, "                         self.top_resid == atom.top_resid and\n                         self.bonds == atom.bonds)", "                         self.top_resid == atom.top_resid)", "species check ignores bonds (D12)")
+add("C04", "B", C, "        if (isinstance(molecule, Molecule) and\n            molecule.name == self.name and\n            len(molecule) == len(self)):", "        if (isinstance(molecule, Molecule) and\n            molecule.name == self.name):", "species check ignores the atom count")
+
 # ----------------------------------------------------------------------------- C05
 add("C05", "B", M, "        complete_correspondence = self.complete_correspondence\n        # Check if there is something to map", "        open(fgro_out, 'w').close()\n        complete_correspondence = self.complete_correspondence\n        # Check if there is something to map", "file created before the checks")
 add("C05", "B", M, "            atom_index = 1", "            atom_index = 0", "numbering from 0")
